@@ -24,8 +24,11 @@ PkgOf(i) == Inputs[i].pkg
 PkgsOfSeq(s) == {PkgOf(s[i]) : i \in DOMAIN s}
 DistinctPkgs(s) == \A i, j \in DOMAIN s : i # j => PkgOf(s[i]) # PkgOf(s[j])
 Without(s, k) == [i \in 1..(Len(s) - 1) |-> IF i < k THEN s[i] ELSE s[i + 1]]
-IsPerm(a, b) == Len(a) = Len(b) /\ a # b /\ \E p \in [DOMAIN a -> DOMAIN a] :
-                   (\A i, j \in DOMAIN a : i # j => p[i] # p[j]) /\ \A i \in DOMAIN a : b[i] = a[p[i]]
+(* b lists the same (pairwise distinct) inputs as a in another order ... *)
+IsPerm(a, b) == Len(a) = Len(b) /\ a # b /\ Range(a) = Range(b) /\ Cardinality(Range(a)) = Len(a)
+(* ... in which the inputs of every package keep their relative order: only inputs of DIFFERENT packages moved *)
+OfPkg(s, p) == SelectSeq(s, LAMBDA i : PkgOf(i) = p)
+SamePackageOrder(a, b) == \A p \in PkgsOfSeq(a) : OfPkg(a, p) = OfPkg(b, p)
 
 IsRun(r) == r.kind = "run"
 SameCfg(r, s) == r.cfg = s.cfg
@@ -42,8 +45,9 @@ FilesOf(r, L) == IF L \in DOMAIN r.files THEN r.files[L] ELSE "none"
 LangIndep(r, s) == (IsRun(r) /\ IsRun(s) /\ r.inputs = s.inputs /\ SameCfg(r, s) /\ ~SameLangs(r, s))
                       => (r.err = s.err /\ (~r.err => \A L \in Range(r.langs) \cap Range(s.langs) : FilesOf(r, L) = FilesOf(s, L)))
 
-(* C07 InputOrderIndependent: the inputs are a permutation of each other and define different packages => no file changes *)
-InputOrder(r, s) == (IsRun(r) /\ IsRun(s) /\ SameCfg(r, s) /\ SameLangs(r, s) /\ IsPerm(r.inputs, s.inputs) /\ DistinctPkgs(r.inputs))
+(* C07 InputOrderIndependent: "reordering inputs that define different packages changes no generated file": the same inputs in
+   another order, the inputs of each package in the same relative order => no file changes *)
+InputOrder(r, s) == (IsRun(r) /\ IsRun(s) /\ SameCfg(r, s) /\ SameLangs(r, s) /\ IsPerm(r.inputs, s.inputs) /\ SamePackageOrder(r.inputs, s.inputs))
                        => (r.err = s.err /\ r.files = s.files)
 
 (* C07 UnrelatedInputIrrelevant: s has one more input than r, of a package r does not define (nothing references it:
